@@ -9,7 +9,7 @@ PID = "C05"
 IMPORTS = "From OV Require Import Model.Vector Model.Matrix Model.Tridiag."
 MODEL_VO = ["Model/Tridiag.vo"]
 EXHAUSTIVE = False
-RULE = ("kinds tri.ctor/views/sets/arith/mul/solve/empty for n = 1..12 (every n in every family; constructors also n = 0 and "
+RULE = ("kinds tri.ctor/views/sets/arith/mul/solve/empty for n = 1..12 (every n in every family over Rat and in every float mul/solve family; the float instances of views/sets/arith on n in {1,2,3,4,6,9,12} in the quick tier, every n in the thorough tier; constructors also n = 0 and "
         "mismatched diagonal lengths); Rat (exact, vs Qc model), f64 and Complex<f64> (vs primitive-float model); views = every (i,j) in "
         "[0,n]x[0,n] (one past the end included) + convert + transpose + det; solve families: diagonally dominant, random with zero "
         "sub/super-diagonal entries, a zero pivot forced at every step k = 0..n-1 for every n (Rat: by the exact recurrence; floats: by a "
@@ -186,7 +186,7 @@ def mk(elt, kind, meta, family, nontrivial=True):
 def generate(rng, tier):
     cases = []
     thorough = (tier == "thorough")
-    rep = 6 if thorough else 1
+    rep = 8 if thorough else 2
     elts = ['rat', 'rat', 'rat', 'f64', 'cplx']
     # constructors: every n = 0..NMAX, mismatched lengths
     g = rng.fork("ctor")
@@ -204,14 +204,17 @@ def generate(rng, tier):
     cases.append(mk('rat', "empty", {}, "empty", True))
     cases.append(mk('f64', "empty", {}, "empty", True))
     # views
+    fsizes = set(range(1, NMAX + 1)) if thorough else {1, 2, 3, 4, 6, 9, 12}
     g = rng.fork("views")
     for n in range(1, NMAX + 1):
         for elt in elts * rep:
+            if elt != 'rat' and n not in fsizes: continue
             cases.append(mk(elt, "views", {"t": rtri(g, elt, n, pzero=2)}, "views-" + elt, n >= 2))
     # writes through IndexMut
     g = rng.fork("sets")
     for n in range(1, NMAX + 1):
         for elt in ['rat', 'f64'] * rep:
+            if elt != 'rat' and n not in fsizes: continue
             ws = []
             for _ in range(g.range(3, 10)):
                 i = g.range(0, n)
@@ -222,6 +225,7 @@ def generate(rng, tier):
     g = rng.fork("arith")
     for n in range(1, NMAX + 1):
         for elt in elts * rep:
+            if elt != 'rat' and n not in fsizes: continue
             s = val(g, elt)
             if s == 0 and not g.chance(1, 3): s = val(g, elt, nz=True)
             cases.append(mk(elt, "arith", {"t": rtri(g, elt, n, 1), "t2": rtri(g, elt, n, 1), "s": s}, "arith-" + elt, n >= 2))
@@ -264,7 +268,9 @@ def generate(rng, tier):
         sub, main, sup = force_zero_pivot(g, n, k)
         t = ([float(x) for x in sub], [float(x) for x in main], [float(x) for x in sup])
         cases.append(mk('f64', "solve", {"t": t, "r": [val(g, 'f64') for _ in range(n)]}, "solve-f64-near-singular", True))
-    return cases
+    # interleave the kinds so that the model shards (consecutive blocks of cases) carry equal loads
+    S = 16 if thorough else 8
+    return [cases[i] for k in range(S) for i in range(k, len(cases), S)]
 
 # ------------------------------------------------------------------ corpus / replay
 def _conv(elt, x):
